@@ -44,7 +44,7 @@ func (sc chainScenario) String() string {
 			fl = append(fl, k)
 		}
 	}
-	return fmt.Sprintf("pre=%d start=%v init=%d maxhdr=%d preempt=1/%d lat=%v+%v faults=[%s] events=%v",
+	return fmt.Sprintf("pre=%d start=%v init=%d annchunk=%d preempt=1/%d lat=%v+%v faults=[%s] events=%v",
 		sc.pre, sc.startFound, sc.initLen, sc.maxHeaders, sc.preemptDen, sc.latBase, sc.latJitter, strings.Join(fl, ","), sc.events)
 }
 
@@ -59,7 +59,7 @@ func genChainScenario(c *Ctx, allowFaults bool) chainScenario {
 	}
 	sc.startFound = !t.Bool(1, 25)
 	sc.initLen = pickFrom(t, 1, 2, 3, 4, 6, 9, 11, 14, 23, 35)
-	sc.maxHeaders = pickFrom(t, 2000, 2000, 2000, 1, 2, 3, 10, 7)
+	sc.maxHeaders = pickFrom(t, 2000, 2000, 2000, 1, 2, 3, 10, 7) // headers per announcement message
 	sc.preemptDen = uint32(pickFrom(t, 0, 2, 3, 4, 8, 16, 64))
 	sc.latBase = time.Duration(pickFrom(t, 1, 2, 5, 20, 80, 300)) * time.Millisecond
 	sc.latJitter = time.Duration(pickFrom(t, 0, 1, 5, 30, 200)) * time.Millisecond
@@ -135,9 +135,9 @@ func newChainRun(c *Ctx, sc chainScenario) *chainRun {
 	tip = ns.BuildChain(first, sc.initLen-1, nil)
 	p := ns.Trusted
 	p.Best = tip
-	p.MaxHeaders = sc.maxHeaders
+	p.AnnounceChunk = sc.maxHeaders
 	if sc.faults["dup"] {
-		p.DupHeaders, p.DupBlock = 150, 150
+		p.DupHeaders, p.DupBlock, p.DupBudget = 200, 200, 2+int(t.Choose(6))
 		c.FaultConfigured("F-peer-dup")
 	}
 	if sc.faults["reorder"] {
@@ -400,8 +400,19 @@ func runC01(c *Ctx, allowFaults bool) {
 	if !done && len(c.Res.Violations) == 0 && c.Res.Inconclusive == "" && !ns.S.Zeno && !ns.S.StepCap {
 		c.Res.Inconclusive = "driver-stuck"
 	}
+	reportPanics(c, ns)
+}
+
+// reportPanics turns panics of SUT tasks into violations and panics of harness tasks into
+// harness trouble (never a VIOLATION).
+func reportPanics(c *Ctx, ns *NodeSim) {
 	for _, p := range ns.S.Panics {
-		c.Violate("panic", panicKey(p), "%s", p)
+		k := panicKey(p)
+		if k == "unknown" {
+			c.Violate("harness-panic", "harness", "%s", p)
+		} else {
+			c.Violate("panic", k, "%s", p)
+		}
 	}
 }
 
